@@ -1146,6 +1146,143 @@ func setChild(p *tr.Pkg, key, name string) (string, error) {
 	return out + " (r_orient r).\n", nil
 }
 
+// boolExpr translates the small boolean expressions of Refs() / mapChildLocs with the given atoms
+// (source text -> Coq term); integers and floats compared with constants are Z.
+func boolExpr(p *tr.Pkg, e ast.Expr, atoms map[string]string) (string, error) {
+	src := func(n ast.Node) string {
+		var b bytes.Buffer
+		printer.Fprint(&b, p.Fset, n)
+		return strings.Join(strings.Fields(b.String()), " ")
+	}
+	if a, ok := atoms[src(e)]; ok {
+		return a, nil
+	}
+	switch x := e.(type) {
+	case *ast.ParenExpr:
+		return boolExpr(p, x.X, atoms)
+	case *ast.BasicLit:
+		if tv := p.Info.Types[e]; tv.Value != nil && (tv.Value.Kind() == constant.Int || tv.Value.Kind() == constant.Float) {
+			if v, ok := constant.Int64Val(constant.ToInt(tv.Value)); ok {
+				return fmt.Sprint(v), nil
+			}
+		}
+	case *ast.UnaryExpr:
+		if x.Op == token.NOT {
+			v, err := boolExpr(p, x.X, atoms)
+			return "(negb " + v + ")", err
+		}
+	case *ast.BinaryExpr:
+		a, err := boolExpr(p, x.X, atoms)
+		if err != nil {
+			return "", err
+		}
+		b, err := boolExpr(p, x.Y, atoms)
+		if err != nil {
+			return "", err
+		}
+		switch x.Op {
+		case token.LAND:
+			return fmt.Sprintf("(andb %s %s)", a, b), nil
+		case token.LOR:
+			return fmt.Sprintf("(orb %s %s)", a, b), nil
+		case token.EQL:
+			return fmt.Sprintf("(Z.eqb %s %s)", a, b), nil
+		case token.NEQ:
+			return fmt.Sprintf("(negb (Z.eqb %s %s))", a, b), nil
+		}
+	}
+	return "", fmt.Errorf("%s: unsupported expression %s", p.Pos(e), src(e))
+}
+
+// refsAnnotated translates the rule by which Refs() marks a reference as already annotated:
+//
+//	annotated[i] = <expr over X[i].Version / ChangesetID / Lat / Lon>
+func refsAnnotated(p *tr.Pkg, key, name string) (string, error) {
+	fd := p.FuncDecls()[key]
+	if fd == nil {
+		return "", fmt.Errorf("%s: not found in source", key)
+	}
+	src := func(n ast.Node) string {
+		var b bytes.Buffer
+		printer.Fprint(&b, p.Fset, n)
+		return strings.Join(strings.Fields(b.String()), " ")
+	}
+	var rhs ast.Expr
+	n := 0
+	ast.Inspect(fd.Body, func(m ast.Node) bool {
+		if as, ok := m.(*ast.AssignStmt); ok && len(as.Lhs) == 1 && len(as.Rhs) == 1 {
+			if ix, ok := as.Lhs[0].(*ast.IndexExpr); ok && src(ix.X) == "annotated" {
+				rhs = as.Rhs[0]
+				n++
+			}
+		}
+		return true
+	})
+	if n != 1 {
+		return "", fmt.Errorf("%s: expected exactly one assignment to annotated[i], found %d", key, n)
+	}
+	atoms := map[string]string{}
+	ast.Inspect(rhs, func(m ast.Node) bool {
+		if sel, ok := m.(*ast.SelectorExpr); ok {
+			if _, isIdx := sel.X.(*ast.IndexExpr); isIdx {
+				if f, ok := map[string]string{"Version": "(r_version r)", "ChangesetID": "(r_changeset r)", "Lat": "(r_lat r)", "Lon": "(r_lon r)"}[sel.Sel.Name]; ok {
+					atoms[src(sel)] = f
+				}
+			}
+		}
+		return true
+	})
+	v, err := boolExpr(p, rhs, atoms)
+	if err != nil {
+		return "", fmt.Errorf("%s: %v", key, err)
+	}
+	return fmt.Sprintf("(* %s: annotated[i] = %s *)\nDefinition %s (r : ref) : bool :=\n  %s.\n", key, src(rhs), name, v), nil
+}
+
+// skipRule translates the condition under which mapChildLocs skips a reference (if C { continue })
+func skipRule(p *tr.Pkg) (string, error) {
+	fd := p.FuncDecls()["mapChildLocs"]
+	if fd == nil {
+		return "", fmt.Errorf("mapChildLocs: not found in source")
+	}
+	var cond ast.Expr
+	n := 0
+	ast.Inspect(fd.Body, func(m ast.Node) bool {
+		if is, ok := m.(*ast.IfStmt); ok && is.Else == nil && len(is.Body.List) == 1 {
+			if br, ok := is.Body.List[0].(*ast.BranchStmt); ok && br.Tok == token.CONTINUE {
+				cond = is.Cond
+				n++
+			}
+		}
+		return true
+	})
+	if n != 1 || len(fd.Type.Params.List) != 2 {
+		return "", fmt.Errorf("mapChildLocs: expected exactly one `if C { continue }`, found %d", n)
+	}
+	filter := fd.Type.Params.List[1].Names[0].Name
+	atoms := map[string]string{filter + " != nil": "(filter_is_some filter)", filter + " == nil": "(negb (filter_is_some filter))"}
+	// annotated[j] and filter(fid), whatever the index / id variables are called
+	ast.Inspect(cond, func(m ast.Node) bool {
+		var b bytes.Buffer
+		switch x := m.(type) {
+		case *ast.IndexExpr:
+			printer.Fprint(&b, p.Fset, x)
+			atoms[strings.Join(strings.Fields(b.String()), " ")] = "annotated"
+		case *ast.CallExpr:
+			if id, ok := x.Fun.(*ast.Ident); ok && id.Name == filter && len(x.Args) == 1 {
+				printer.Fprint(&b, p.Fset, x)
+				atoms[strings.Join(strings.Fields(b.String()), " ")] = "(filter_app filter fid)"
+			}
+		}
+		return true
+	})
+	v, err := boolExpr(p, cond, atoms)
+	if err != nil {
+		return "", fmt.Errorf("mapChildLocs: %v", err)
+	}
+	return "(* mapChildLocs: a reference is skipped when this holds *)\nDefinition gen_skip_ref (annotated : bool) (filter : option (Z -> bool)) (fid : Z) : bool :=\n  " + v + ".\n", nil
+}
+
 // commitInfoStart reads the arguments of  var CommitInfoStart = time.Date(y, mo, d, h, mi, s, ns, time.UTC)
 func commitInfoStart(p *tr.Pkg) (string, error) {
 	for _, f := range p.Files {
@@ -1197,7 +1334,9 @@ func main() {
 	var text bytes.Buffer
 	text.WriteString("(* GENERATED by /verif/translator (cmd/annotate) from /repo — do not edit. *)\n" +
 		"From Coq Require Import ZArith List Bool.\nFrom Verif Require Import Annotate.Model.\nImport ListNotations.\nOpen Scope Z_scope.\n\n" +
-		"Definition get_at {A} (l : list A) (i : Z) : option A := if i <? 0 then None else nth_error l (Z.to_nat i).\n\nCreate HintDb genhelpers.\n\n")
+		"Definition get_at {A} (l : list A) (i : Z) : option A := if i <? 0 then None else nth_error l (Z.to_nat i).\n\nCreate HintDb genhelpers.\n\n" +
+		"Definition filter_is_some (f : option (Z -> bool)) : bool := match f with Some _ => true | None => false end.\n" +
+		"Definition filter_app (f : option (Z -> bool)) (x : Z) : bool := match f with Some g => g x | None => false end.\n\n")
 	failed := 0
 	emit := func(dir, path string, fns []*fnCfg) *tr.Pkg {
 		p, err := tr.Load(filepath.Join(repo, dir), path)
@@ -1261,6 +1400,34 @@ func main() {
 			continue
 		}
 		text.WriteString(s + "\n")
+	}
+	for _, ra := range [][2]string{{"parentWay.Refs", "gen_way_annotated"}, {"parentRelation.Refs", "gen_relation_annotated"}} {
+		s, err := refsAnnotated(ann, ra[0], ra[1])
+		if err != nil {
+			fmt.Fprintf(&text, "(* NOT TRANSLATED %s: %v *)\n\n", ra[0], err)
+			fmt.Fprintln(os.Stderr, "translator annotate:", err)
+			failed++
+			continue
+		}
+		text.WriteString(s + "\n")
+	}
+	if corePkg, err := tr.Load(filepath.Join(repo, "annotate/internal/core"), "github.com/paulmach/osm/annotate/internal/core"); err != nil {
+		fmt.Fprintln(os.Stderr, "translator annotate:", err)
+		os.Exit(1)
+	} else if s, err := skipRule(corePkg); err != nil {
+		fmt.Fprintf(&text, "(* NOT TRANSLATED mapChildLocs skip rule: %v *)\n\n", err)
+		fmt.Fprintln(os.Stderr, "translator annotate:", err)
+		failed++
+	} else {
+		text.WriteString(s + "\n")
+	}
+	// the default threshold of annotate.Ways / annotate.Relations (options.go)
+	if c, ok := ann.Types.Scope().Lookup("defaultThreshold").(*types.Const); ok && c.Val().Kind() == constant.Int {
+		fmt.Fprintf(&text, "(* options.go: const defaultThreshold *)\nDefinition gen_default_threshold : Z := %s.\n\n", tr.CoqZ(c.Val()))
+	} else {
+		text.WriteString("(* NOT TRANSLATED defaultThreshold *)\n\n")
+		fmt.Fprintln(os.Stderr, "translator annotate: defaultThreshold is not an integer constant")
+		failed++
 	}
 	if err := tr.Emit(filepath.Join(out, "GenAnnotate.v"), text.Bytes()); err != nil {
 		fmt.Fprintln(os.Stderr, err)
